@@ -10,24 +10,26 @@ Module T := Rodbus.Model.ClientTask.
 Module SS := Rodbus.Spec.SystemClientSpec.
 Local Open Scope string_scope.
 
-Record syscase := { y_req : CT.request; y_chunks : list (list N); y_fin : F.fin }.
+Record syscase := { y_req : CT.request; y_tx0 : N; y_chunks : list (list N); y_fin : F.fin }.
 
 (* the first request of a fresh connection (transaction id 0), in flight; then the byte chunks *)
 Definition eval_syscase (k : syscase) : string :=
   let cfg := {| T.cfg_cap := 4; T.cfg_res := 1000000%N |} in
   let rq := {| T.rq_id := 0; T.rq_kind := T.KRead; T.rq_timeout := 1000000000%N |} in
-  let st := fst (T.run cfg (T.init 1 None 20000000%N 40000000%N)
+  let st := fst (T.run cfg (T.set_txid (T.init 1 None 20000000%N 40000000%N) (y_tx0 k))
                    [T.EvSubmit T.CEnable T.SFuture; T.EvRecv; T.EvConnect true; T.EvSubmit (T.CReq rq) T.SFuture; T.EvRecv]) in
   show_verdict (SystemClient.verdict_for 0 (SystemClient.client_system cfg (fun _ => y_req k) st (y_chunks k) (y_fin k)))
-  ++ "|" ++ show_verdict (SS.ref_client_result (y_req k) 0%N (List.concat (y_chunks k)) (y_fin k)).
+  ++ "|" ++ show_verdict (SS.ref_client_result (y_req k) (y_tx0 k) (List.concat (y_chunks k)) (y_fin k)).
 
 (* a sequence of exchanges on one connection: request k (id k, transaction id k) in flight, its chunks *)
 From Rodbus Require Model.SystemClientSession Spec.SystemClientSessionSpec.
-Definition eval_session (xs : list (CT.request * list (list N))) : string :=
+Definition eval_session (c : N * list (CT.request * list (list N))) : string :=
+  let tx0 := fst c in let xs := snd c in
+  let txk k := ((tx0 + N.of_nat k) mod 65536)%N in
   let cfg := {| T.cfg_cap := 4; T.cfg_res := 1000000%N |} in
   let st k := T.set_ph (T.init 1 None 20000000%N 40000000%N)
-                (T.PInFlight {| T.rq_id := k; T.rq_kind := T.KRead; T.rq_timeout := 1000000000%N |} (N.of_nat k) 1000000000%N) in
+                (T.PInFlight {| T.rq_id := k; T.rq_kind := T.KRead; T.rq_timeout := 1000000000%N |} (txk k) 1000000000%N) in
   let reqs k := nth k (map fst xs) (CT.RReadHoldingRegisters (0, 1)%N) in
   let sys := SystemClientSession.client_session cfg reqs (map (fun p => (st (fst p), fst p, snd (snd p))) (combine (seq 0 (List.length xs)) xs)) in
-  let spec := Spec.SystemClientSessionSpec.ref_session [] (map (fun p => (fst (snd p), N.of_nat (fst p), List.concat (snd (snd p)))) (combine (seq 0 (List.length xs)) xs)) in
+  let spec := Spec.SystemClientSessionSpec.ref_session [] (map (fun p => (fst (snd p), txk (fst p), List.concat (snd (snd p)))) (combine (seq 0 (List.length xs)) xs)) in
   show_list show_verdict " " sys ++ "|" ++ show_list show_verdict " " spec.
